@@ -281,7 +281,7 @@ bool monitor_next(CaseCtx& c, const char* prop) {
                 else if (got == mv.info->ambiguous)
                     obs = "ambiguous";
                 else
-                    for (int e = 0; e < MAXDEF; ++e)
+                    for (int e = 0; e < MAXDEF_BIG; ++e)
                         if (got == mv.body[e])
                             obs = "def " + std::to_string(e);
                 if (c.run.violation(std::string(prop) + ":next:" + (exp.kind == Sel::DEF ? "def" : exp.str()) + "-expected",
@@ -637,7 +637,7 @@ void behaviour(CaseCtx& c, uint64_t seed, int max_tuples, int alias_round, bool 
                 else if (got == mv.info->ambiguous)
                     obs = "ambiguous";
                 else
-                    for (int e = 0; e < MAXDEF; ++e)
+                    for (int e = 0; e < MAXDEF_BIG; ++e)
                         if (got == mv.body[e])
                             obs = "def " + std::to_string(e);
                 out.rows.push_back("m" + std::to_string(m) + " next(def " + std::to_string(d) + ") -> " + obs);
